@@ -88,9 +88,20 @@ def groupsOf (c : ValCtx) (fr : FileResult) : Option (Groups × List Diag) :=
 
 def catName (c : Spec.Category) : String := (reprStr c).replace "Aidl.Spec.Category." ""
 
+def zipById (a b : List FileResult) : List (FileResult × FileResult) :=
+  a.filterMap fun x => (b.find? (fun y => y.id == x.id)).map fun y => (x, y)
+
+/-- C06 / C07 / C08 speak about what a type "resolves to": the kinds in the implementation's output
+    are the ones the scoping rule of C05 prescribes (where the hypothesis of `Props.C05.holds` holds) -/
+def resolutionAsSpecified (c : ValCtx) : Bool :=
+  (zipById c.stage1 c.out).all fun (a, b) =>
+    (match groupsOf c a with
+     | none => true
+     | some (g, _) => !decide (Props.C05.Fresh g)) || Spec.C05.holdsFile c.defined a b
+
 def handleC07 (c : ValCtx) (v : Verdict) : Verdict :=
   let v := v.addCorr "C07" (decide (c.model.map Spec.C07.proj = c.out.map Spec.C07.proj))
-  let v := v.addSpec "C07" (c.out.all Spec.C07.holdsFile)
+  let v := v.addSpec "C07" (c.out.all Spec.C07.holdsFile && resolutionAsSpecified c)
   let v := v.addAssume "C07" (c.stage1.all fun fr => match groupsOf c fr with
     | none => true
     | some (g, ids) => decide (Props.C07.Fresh g ids))
@@ -99,9 +110,6 @@ def handleC07 (c : ValCtx) (v : Verdict) : Verdict :=
     | some ast => (Spec.C07.argsOf ast).map fun p =>
         s!"{catName (Spec.Category.of p.2.argType.kind)}/{reprStr (Spec.C07.dirOf p.2.direction)}/{p.1.oneway}"
   { v with nontrivial := !args.isEmpty, dist := args.foldl bump v.dist }
-
-def zipById (a b : List FileResult) : List (FileResult × FileResult) :=
-  a.filterMap fun x => (b.find? (fun y => y.id == x.id)).map fun y => (x, y)
 
 def handleC05 (c : ValCtx) (v : Verdict) : Verdict :=
   let v := v.addCorr "C05" (decide (c.model.map Spec.C05.proj = c.out.map Spec.C05.proj))
@@ -143,7 +151,7 @@ def handleC09 (c : ValCtx) (v : Verdict) : Verdict :=
 
 def handleC08 (c : ValCtx) (v : Verdict) : Verdict :=
   let v := v.addCorr "C08" (decide (c.model.map Spec.C08.proj = c.out.map Spec.C08.proj))
-  let v := v.addSpec "C08" (c.out.all Spec.C08.holdsFile)
+  let v := v.addSpec "C08" (c.out.all Spec.C08.holdsFile && resolutionAsSpecified c)
   let v := v.addAssume "C08" (c.stage1.all fun fr => match groupsOf c fr with
     | some (g, _) => decide (Props.C08.Fresh g)
     | none => true)
@@ -157,7 +165,7 @@ def handleC08 (c : ValCtx) (v : Verdict) : Verdict :=
 
 def handleC06 (c : ValCtx) (v : Verdict) : Verdict :=
   let v := v.addCorr "C06" (decide (c.model.map Spec.C06.proj = c.out.map Spec.C06.proj))
-  let v := v.addSpec "C06" (c.out.all (Spec.C06.holdsFile c.defined))
+  let v := v.addSpec "C06" (c.out.all (Spec.C06.holdsFile c.defined) && resolutionAsSpecified c)
   let v := v.addAssume "C06" (c.stage1.all fun fr => match groupsOf c fr with
     | some (g, _) => decide (Props.C06.Fresh g)
     | none => true)
@@ -315,6 +323,7 @@ def opHistory (j : Json) : R Verdict := do
   let model := (validate HashOrder.id merged.values).toOption.map sortById
   let steps ← arr (← fld impl "steps")
   let allSame := (← steps.toList.mapM (fun s => do bool (← fld s "same_as_fresh"))).all id
+  let idsOk := (← steps.toList.mapM (fun s => do bool (← fld s "ids_ok"))).all id
   -- io results: ok exactly for readable UTF-8 files
   let ioOk := (← (steps.toList.zip ops).mapM (fun (s, (op, fsys)) => do
     let io := (s.getObjVal? "io").toOption.getD .null
@@ -327,6 +336,10 @@ def opHistory (j : Json) : R Verdict := do
   let mut v : Verdict := {}
   v := v.addCorr "C12" (model == some final)
   v := v.addSpec "C12" (allSame && ioOk)
+  -- C01: after every step the validated map holds exactly one result per id in the parser, tagged with it;
+  -- the model's store after the history has exactly the implementation's ids
+  v := v.addCorr "C01" ((merged.map (·.1)).mergeSort == (final.map (·.id)).mergeSort)
+  v := v.addSpec "C01" idsOk
   v := { v with nontrivial := ops.length ≥ 2, dist := bump v.dist s!"len~{min (ops.length / 5 * 5) 40}" }
   return v
 
